@@ -25,21 +25,41 @@ def sig_hash(sig):
     return hashlib.sha1(sig.encode()).hexdigest()[:12]
 
 
-def write_replay(prop, sig, case, viol):
+def write_replay(prop, sig, case, viol, note=None):
     d = os.path.join(VERIF, 'replay', prop)
     os.makedirs(d, exist_ok=True)
     path = os.path.join(d, sig_hash(sig) + '.json')
     with open(path, 'w') as f:
         json.dump(dict(property=prop, signature=sig, message=viol.get('msg'), case=case,
-                       detail=viol.get('detail'), repo=boot.REPO,
-                       how_to_replay='cd /verif && ./check %s --replay %s' % (prop, path)),
+                       detail=viol.get('detail'), repo=boot.REPO, note=note,
+                       how_to_replay='cd /verif && VERIF_REPO=%s ./check %s --replay %s' % (boot.REPO, prop, path)),
                   f, indent=1, default=str)
     return path
+
+
+def confirmed_replay(prop, sig, candidates):
+    """write the artefact for the first candidate case that reproduces the violation when replayed ALONE in a fresh
+    process (workers are long-lived, so a violation may depend on the worker's earlier cases); if none does, the
+    artefact of the first candidate is kept and flagged as history dependent."""
+    import subprocess
+    for c, v in candidates[:6]:
+        path = write_replay(prop, sig, c, v)
+        try:
+            r = subprocess.run([os.path.join(VERIF, 'check'), prop, '--replay', path], capture_output=True, timeout=300,
+                               env=dict(os.environ, VERIF_REPO=boot.REPO))
+            if r.returncode == 1:
+                return path, True
+        except Exception:
+            pass
+    c, v = candidates[0]
+    return write_replay(prop, sig, c, v, note='history dependent: this case violated the property only after the earlier cases '
+                        'run by the same long-lived worker process; it does not reproduce when replayed alone'), False
 
 
 def report(prop, mod, cases, results, summary, tier, seed, level):
     known = [k for k in load_known() if k.get('property') == prop]
     by_sig = {}
+    cands = {}
     total_viol = 0
     for c, r in zip(cases, results):
         if r is None:
@@ -49,6 +69,13 @@ def report(prop, mod, cases, results, summary, tier, seed, level):
             by_sig.setdefault(v['sig'], (c, v, 0))
             cc, vv, k = by_sig[v['sig']]
             by_sig[v['sig']] = (cc, vv, k + 1)
+            cl = cands.setdefault(v['sig'], [])
+            if len(cl) < 3:
+                cl.append((c, v))
+            else:               # first three and the last three occurrences
+                if len(cl) >= 6:
+                    del cl[3]
+                cl.append((c, v))
     unlisted = 0
     known_hit = 0
     lines = []
@@ -59,8 +86,13 @@ def report(prop, mod, cases, results, summary, tier, seed, level):
             lines.append('KNOWN-FINDING: property=%s %s [signature %s; %d occurrence(s)]' % (prop, kf[0].get('what', ''), sig, k))
         else:
             unlisted += 1
-            path = write_replay(prop, sig, c, v)
+            if unlisted <= 12:
+                path, alone = confirmed_replay(prop, sig, cands[sig])
+            else:
+                path, alone = write_replay(prop, sig, c, v), True
             lines.append('VIOLATION property=%s replay=%s' % (prop, path))
+            if not alone:
+                lines.append('  (history dependent: reproduces only after earlier cases in the same process)')
             lines.append('  signature: %s (%d occurrence(s))' % (sig, k))
             lines.append('  first: %s' % (str(v.get('msg'))[:600]))
     cov = summary['coverage']
